@@ -263,6 +263,14 @@ func c05Helpers(eng *twig.Engine) {
 	eng.RegisterString("macros", "{% macro m(p, q = 2) %}({{ p }},{{ q }}){% endmacro %}{% macro n() %}n{% endmacro %}")
 	// nested includes and macro look-ups through several contexts: what a later, healthy render needs
 	eng.RegisterString("c05mid", "({% include 'inc' with {'a': 'M'} %}{% macro z() %}z{% endmacro %}{{ _self.z() }}{% include 'inc' %})")
+	// libraries whose top level fails when rendered (what an import does first)
+	eng.RegisterString("c05libdiv", "{{ 100 / zero }}{% macro m() %}m{% endmacro %}")
+	eng.RegisterString("c05libinc", "{% include 'c05-no-such-partial' %}{% macro m() %}m{% endmacro %}")
+	eng.RegisterString("c05libfn", "{{ c05nosuchfunction() }}{% macro m() %}m{% endmacro %}")
+	eng.RegisterString("c05libfilter", "{{ a|c05nosuchfilter }}{% macro m() %}m{% endmacro %}")
+	eng.RegisterString("c05libidx", "{% macro m() %}m{% endmacro %}{{ arr[99].x.y }}{{ c05nosuch2() }}")
+	eng.RegisterString("c05libimp", "{% import 'c05libdiv' as d %}{% macro m() %}m{% endmacro %}")
+	eng.RegisterString("c05libext", "{% extends 'c05-no-such-parent' %}{% macro m() %}m{% endmacro %}")
 	eng.RegisterString("c05nest", "{% import 'macros' as mm %}<{% include 'inc' %}{% include 'c05mid' %}{{ mm.m(1) }}{% for i in [1, 2] %}{% include 'c05mid' with {'a': i} %}{% endfor %}>")
 }
 
@@ -555,6 +563,12 @@ func c05Child() {
 			if e := json.Unmarshal(line, &c); e != nil {
 				fmt.Fprintln(os.Stderr, "child: bad case:", e)
 				os.Exit(4)
+			}
+			// a case may ask for a smaller stack: unbounded recursion then shows at sizes that fit the memory limit
+			if mb := c.num("maxstack_mb"); mb > 0 {
+				debug.SetMaxStack(mb << 20)
+			} else {
+				debug.SetMaxStack(1000000000)
 			}
 			t0 := time.Now()
 			o := c05Exec(c)
@@ -1107,6 +1121,16 @@ func c05Expand(c Case) {
 		src = rep("lorem { ipsum } % # ", n)
 	case "ternary":
 		src = "{{ " + rep("1 ? ", n) + "1" + rep(" : 0", n) + " }}"
+	case "ternary-else":
+		src = "{{ " + rep("0 ? 0 : ", n) + "1 }}"
+	case "ternary-tight":
+		src = "{{ 1" + rep("?1:1", n) + " }}"
+	case "ternary-cond":
+		src = "{{ " + rep("(", n/2) + "1" + rep(" ? 1 : 0)", n/2) + " }}"
+	case "ternary-short":
+		src = "{{ " + rep("a ?: ", n) + "1 }}"
+	case "coalesce":
+		src = "{{ " + rep("a ?? ", n) + "1 }}"
 	}
 	c["src"] = hx(src)
 }
